@@ -461,6 +461,70 @@ fn lowrank_small_window(d: usize, n: usize, k: usize, cond: f64, p: &mut Partial
     p.class(format!("lowrank-small-window:n{n}:rank{k}"));
 }
 
+/// the DEFAULT eigenvalue cut-off (2): directions whose rescaled eigenvalue lies outside
+/// (1/2, 2) - stretched AND compressed ones - are kept. Targets: covariance I + c * 11^T
+/// (one stretched direction) and its inverse structure I - c' * 11^T (one compressed direction),
+/// strongly correlated pairs of either sign; exact draws and gradients, 2d + 3 draws.
+fn lowrank_default_cutoff(d: usize, c: f64, compressed: bool, p: &mut Partial) {
+    // covariance S = I + c 11^T (or, compressed: S^-1 = I + c 11^T)
+    let w = c / (1.0 + c * d as f64);
+    let plus = |i: usize, j: usize| if i == j { 1.0 + c } else { c };
+    let minus = |i: usize, j: usize| if i == j { 1.0 - w } else { -w };
+    let (cov, prec): (Vec<f64>, Vec<f64>) = if compressed {
+        ((0..d * d).map(|k| minus(k / d, k % d)).collect(), (0..d * d).map(|k| plus(k / d, k % d)).collect())
+    } else {
+        ((0..d * d).map(|k| plus(k / d, k % d)).collect(), (0..d * d).map(|k| minus(k / d, k % d)).collect())
+    };
+    let covm = Dense { d, a: cov };
+    let precm = Dense { d, a: prec.clone() };
+    let mu: Vec<f64> = (0..d).map(|i| 0.3 * i as f64 - 0.5).collect();
+    let n = 2 * d + 3;
+    let pts: Vec<Vec<f64>> = (0..n)
+        .map(|m| {
+            let t: Vec<f64> = (0..d).map(|i| ((m as f64 + 1.0) * (0.71 + 0.23 * i as f64)).sin() * 1.4 + 0.07 * (m as f64 - 3.0)).collect();
+            let z = covm.mul_vec(&t);
+            (0..d).map(|i| mu[i] + z[i]).collect()
+        })
+        .collect();
+    let grads: Vec<Vec<f64>> = pts.iter().map(|x| { let diff: Vec<f64> = (0..d).map(|i| x[i] - mu[i]).collect(); precm.mul_vec(&diff).iter().map(|v| -v).collect() }).collect();
+    p.evaluations += 1;
+    let key = format!("lowrank-default-cutoff/d{d}/c{c}/{}", if compressed { "compressed" } else { "stretched" });
+    let replay = json!({"d": d, "c": c, "compressed": compressed});
+    let Some((mut math, mut h, changed)) = lowrank_feed(d, &pts, &grads, LowRankSettings::default()) else {
+        p.violation(format!("C08/estimator-panicked/{key}"), String::new(), replay);
+        return;
+    };
+    if !changed {
+        p.violation(format!("C08/low-rank-adaptation-did-not-update/{key}"), String::new(), replay);
+        return;
+    }
+    let target = Target::DenseNormal { mu: mu.clone(), prec };
+    let mut worst: f64 = 0.0;
+    for probe in 0..3 {
+        let x: Vec<f64> = (0..d).map(|i| mu[i] + ((probe as f64 + 1.3) * (i as f64 + 0.9)).cos()).collect();
+        let mut g = vec![0.0; d];
+        target.logp(&x, &mut g);
+        let mut yv = math.new_array();
+        let mut gyv = math.new_array();
+        use nuts_rs::verif::Transformation;
+        if h.transformation_mut().inv_transform_normalize(&mut math, &col(&x), &col(&g), &mut yv, &mut gyv).is_err() {
+            continue;
+        }
+        let y = math.box_array(&yv);
+        let gy = math.box_array(&gyv);
+        let scale = y.iter().fold(1e-3f64, |m, v| m.max(v.abs()));
+        for i in 0..d {
+            worst = worst.max((y[i] + gy[i]).abs() / scale);
+        }
+    }
+    p.count(&format!("default_cutoff_error_below_1e-{}", (-worst.max(1e-300).log10()).floor().max(0.0) as i64), 1);
+    if !(worst < 2e-3) {
+        p.violation(format!("C08/low-rank-adaptation-does-not-whiten-gaussian/{key}"), format!("max |y + grad_y| / |y| = {worst:e} on probe points (default eigenvalue cut-off)"), replay);
+        return;
+    }
+    p.class(format!("lowrank-default-cutoff:{}", if compressed { "compressed" } else { "stretched" }));
+}
+
 fn lowrank_degeneracy(p: &mut Partial, tier: Tier) {
     let alpha: Vec<f64> = tier.pick(vec![0.0, 1.0, -1.0, 1e300, f64::NAN, f64::INFINITY], ALPHA.to_vec());
     let n = alpha.len();
@@ -522,7 +586,7 @@ fn closed_loop(preset: Preset, target: Target, tol: f64, p: &mut Partial) {
     let start: Vec<f64> = (0..d).map(|i| 0.15 + 0.37 * i as f64).collect();
     let res = with_settings!(preset, &t, |s| run_chain(&s, Dens::new(target.clone()), 4, &start, 70));
     p.evaluations += 1;
-    let key = format!("closed-loop/{preset:?}/d{d}");
+    let key = format!("closed-loop/{preset:?}/d{d}{}", if matches!(target, Target::DenseNormal { .. }) { format!("/correlated-prec00={:.3}", match &target { Target::DenseNormal { prec, .. } => prec[0], _ => 0.0 }) } else { String::new() });
     if !matches!(res.end, RunEnd::Completed) {
         p.violation(format!("C08/closed-loop-run-failed/{key}"), format!("{:?}", res.end), json!({"preset": format!("{preset:?}")}));
         return;
@@ -559,10 +623,20 @@ pub fn run(tier: Tier, _replay: Option<String>) -> i32 {
         DiagInit,
         LowRankExact(usize, usize, f64),
         LowRankSmallWindow(usize, usize, usize, f64),
+        LowRankDefaultCutoff(usize, f64, bool),
         LowRankWindows,
         Closed(Preset, usize),
+        /// low-rank preset with its DEFAULT eigenvalue cut-off on a correlated Gaussian
+        ClosedCorr(usize, usize),
     }
     let mut jobs = vec![];
+    // (with the default cut-off the direct feed is exact only where every rescaled eigenvalue of
+    // the fed point set falls outside (1/2, 2): measured on the unchanged tree, these six)
+    for d in [5usize, 10] {
+        for c in [2.0, 9.0, 40.0] {
+            jobs.push(Job::LowRankDefaultCutoff(d, c, false));
+        }
+    }
     for d in tier.pick(vec![6usize, 8, 12], vec![6usize, 8, 12, 20, 50]) {
         for n in [3usize, 4, 6] {
             if 2 * n > d {
@@ -600,6 +674,9 @@ pub fn run(tier: Tier, _replay: Option<String>) -> i32 {
             jobs.push(Job::Closed(preset, d));
         }
     }
+    for which in [0usize, 1, 3] {
+        jobs.push(Job::ClosedCorr(which, 0));
+    }
     report.bounds = json!({"jobs": jobs.len(), "alphabet": ALPHA.iter().map(|v| format!("{v:e}")).collect::<Vec<_>>()});
     mc_core::par_for_each(&jobs, |_, j| {
         let mut p = Partial::new();
@@ -610,7 +687,18 @@ pub fn run(tier: Tier, _replay: Option<String>) -> i32 {
             Job::DiagExactScaled(d, b) => diag_exactness_scaled(*d, 1.0, *b, &mut p, tier),
             Job::LowRankExact(d, k, c) => lowrank_exactness(*d, *k, *c, &mut p),
             Job::LowRankSmallWindow(d, n, k, c) => lowrank_small_window(*d, *n, *k, *c, &mut p),
+            Job::LowRankDefaultCutoff(d, c, comp) => lowrank_default_cutoff(*d, *c, *comp, &mut p),
             Job::LowRankWindows => lowrank_degeneracy(&mut p, tier),
+            Job::ClosedCorr(which, _) => {
+                // strongly correlated pairs of either sign, one stretched / one compressed direction
+                let dense = |d: usize, f: &dyn Fn(usize, usize) -> f64| -> Vec<f64> { (0..d * d).map(|k| f(k / d, k % d)).collect() };
+                let (d, prec): (usize, Vec<f64>) = match which {
+                    0 => { let r: f64 = 0.95; let k = 1.0 / (1.0 - r * r); (2, vec![k, -r * k, -r * k, k]) }
+                    1 => { let r: f64 = -0.8; let k = 1.0 / (1.0 - r * r); (2, vec![k, -r * k, -r * k, k]) }
+                    _ => { let d = 5; (d, dense(d, &|i, j| if i == j { 1.0 + 9.0 } else { 9.0 })) }
+                };
+                closed_loop(Preset::LowRankNuts, Target::DenseNormal { mu: (0..d).map(|i| 0.3 * i as f64).collect(), prec }, 1e-6, &mut p)
+            }
             Job::Closed(preset, d) => closed_loop(
                 *preset,
                 Target::DiagNormal { mu: (0..*d).map(|i| 0.3 * i as f64).collect(), sigma: (0..*d).map(|i| 0.2 * 4f64.powi(i as i32)).collect() },
@@ -622,7 +710,7 @@ pub fn run(tier: Tier, _replay: Option<String>) -> i32 {
         p.transitions = p.evaluations;
         p.validated = p.evaluations;
         if p.samples.is_empty() {
-            p.sample(json!({"job": match j { Job::DiagExact(d, c) => format!("diag exactness d={d} cond={c:e}"), Job::DiagExactScaled(d, b) => format!("diag exactness d={d} base scale {b:e}"), Job::DiagWindows(g) => format!("diag windows grad_based={g}"), Job::DiagInit => "gradient initialiser".into(), Job::LowRankExact(d, k, c) => format!("low-rank exactness d={d} rank={k} cond={c:e}"), Job::LowRankSmallWindow(d, n, k, c) => format!("low-rank small window d={d} n={n} rank={k} cond={c:e}"), Job::LowRankWindows => "low-rank windows".into(), Job::Closed(pr, d) => format!("closed loop {pr:?} d={d}") }}));
+            p.sample(json!({"job": match j { Job::DiagExact(d, c) => format!("diag exactness d={d} cond={c:e}"), Job::DiagExactScaled(d, b) => format!("diag exactness d={d} base scale {b:e}"), Job::DiagWindows(g) => format!("diag windows grad_based={g}"), Job::DiagInit => "gradient initialiser".into(), Job::LowRankExact(d, k, c) => format!("low-rank exactness d={d} rank={k} cond={c:e}"), Job::LowRankSmallWindow(d, n, k, c) => format!("low-rank small window d={d} n={n} rank={k} cond={c:e}"), Job::LowRankDefaultCutoff(d, c, comp) => format!("low-rank default cut-off d={d} c={c} compressed={comp}"), Job::LowRankWindows => "low-rank windows".into(), Job::Closed(pr, d) => format!("closed loop {pr:?} d={d}"), Job::ClosedCorr(w, _) => format!("closed loop low-rank correlated target {w}") }}));
         }
         report.merge(p);
     });
